@@ -184,7 +184,7 @@ def run_case(case):
     import os, tempfile, shutil, random
     import numpy as np
     C = Counter()
-    viol = []
+    viol = util.ViolList()
     M = make_model(case)
     base_params = dict(M.get_parameter_dictionary())
 
